@@ -450,8 +450,8 @@ theorem pass_is_downstream (c : Cfg) (q : Query) (down : Option Down) (a : AResp
     rcases writeMsg_cases c q m a with ⟨_, hw⟩ | hw | hw | hw
     · rw [hw] at h ⊢
       have sp := synthesise_pass c _ _ a h
-      rw [origOf_not_copied c m sp.1] at sp
-      exact sp.2
+      have e := origOf_not_copied c m sp.1
+      exact ⟨by rw [sp.2.1, e], by rw [sp.2.2.1, e], by rw [sp.2.2.2, e]⟩
     · rw [hw]; simp [passReply]
     · rw [hw] at h; simp at h
     · rw [hw] at h; simp at h
